@@ -258,3 +258,54 @@ def run_time_codec(prog, rep):
     rule.check(ok, 'timeToStr~strToTime|format', rep.where(enc), enc.label(), 'formatter %s, parser %s' % (fm, ps),
                'formatter %s and parser %s are not a matching pair' % (fm or 'none recognised', ps or 'none recognised'))
     return rule
+
+
+def run_classify(prog, rep):
+    """R-CLASSIFY: the pre-check predicates agree with the encoder: a DataType counts as numeric exactly when the file-type
+    encoder maps it to a predefined integer/float type, and data_types_convertible(a, b) holds only for pairs the encoder can store.
+    Evaluated exhaustively over the enumerators of nix::DataType (finite domain) by interpreting the predicates' source."""
+    rule = rep.rule('R-CLASSIFY', 'data_type_is_numeric / data_types_convertible accept only element types the HDF5 encoder handles '
+                    '(otherwise a write is refused only after the resize)', floor=20)
+    ff, ft = encoder_table(prog, 'nix::hdf5::data_type_to_h5_filetype')
+    isnum = prog.fn('nix::data_type_is_numeric')
+    conv = prog.fn('nix::data_types_convertible')
+    en = prog.enums['nix::DataType']['enumerators']
+    evals = {x['name']: x['value'] for x in en}
+
+    def conc(interp, n, env):
+        return NotImplemented
+
+    def val(name):
+        return ('e', 'nix::DataType::' + name)
+
+    def ev(fn, args):
+        it = GenericInterp(prog, inline=lambda g: g.usr in (isnum.usr, conv.usr))
+        res = it.enumerate(fn, this=None, args=args)
+        return set(o for a, o, l, fl in res)
+
+    numeric = {}
+    for x in en:
+        e = x['name']
+        outs = ev(isnum, [val(e)])
+        enc = H5.get(ft.get(e))
+        want = enc is not None and enc[0] in ('H5T_INTEGER', 'H5T_FLOAT')
+        if outs not in ({('ret', True)}, {('ret', False)}):
+            raise AnalysisBroken('R-CLASSIFY: data_type_is_numeric(%s) evaluates to %r' % (e, outs))
+        got = outs == {('ret', True)}
+        numeric[e] = got
+        rule.check(got == want, 'data_type_is_numeric|%s' % e, rep.where(isnum), isnum.q,
+                   '%s: numeric=%s, encoder maps it to %s' % (e, got, ft.get(e)),
+                   'data_type_is_numeric(DataType::%s) is %s but the file-type encoder maps %s to %s: the convertibility pre-check of '
+                   'setData/appendData %s it, so the refusal comes %s' % (e, got, e, ft.get(e), 'accepts' if got else 'rejects',
+                                                                          'after the data set was resized' if got else 'for a storable type'))
+    for a in en:
+        for b in en:
+            outs = ev(conv, [val(a['name']), val(b['name'])])
+            if outs not in ({('ret', True)}, {('ret', False)}):
+                raise AnalysisBroken('R-CLASSIFY: data_types_convertible(%s, %s) evaluates to %r' % (a['name'], b['name'], outs))
+            if outs == {('ret', True)}:
+                ok = all(ft.get(z['name']) not in (None, 'throw') for z in (a, b))
+                rule.check(ok, 'data_types_convertible|%s,%s' % (a['name'], b['name']), rep.where(conv), conv.q,
+                           '%s -> %s convertible, both storable' % (a['name'], b['name']),
+                           'data_types_convertible(%s, %s) is true but the encoder has no HDF5 type for one of them' % (a['name'], b['name']))
+    return rule
